@@ -47,6 +47,61 @@ theorem nodup_toWrite (c : Cfg) (i : Ids) (limit : Option (List Name)) : (toWrit
       | exact List.Pairwise.filter _ (nodup_toWriteRaw i)
       | exact List.Pairwise.filter _ (List.Pairwise.filter _ (nodup_toWriteRaw i))
 
+/-! ### `sorted(to_write)` -/
+
+theorem nameLe_total : ∀ (a b : Name), nameLe a b = true ∨ nameLe b a = true
+  | [], _ => Or.inl rfl
+  | _ :: _, [] => Or.inr rfl
+  | a :: as, b :: bs => by
+    by_cases h1 : a.toNat < b.toNat
+    · simp [nameLe, h1]
+    · by_cases h2 : b.toNat < a.toNat
+      · simp [nameLe, h2]
+      · simp only [nameLe, h1, h2, if_false]
+        exact nameLe_total as bs
+
+/-- adjacent elements are in order -/
+def SortedNames : List Name → Prop
+  | [] => True
+  | [_] => True
+  | x :: y :: r => nameLe x y = true ∧ SortedNames (y :: r)
+
+theorem perm_insertName (x : Name) : ∀ (l : List Name), (insertName x l).Perm (x :: l)
+  | [] => List.Perm.refl _
+  | y :: ys => by
+    by_cases h : nameLe x y = true
+    · simp [insertName, h]
+    · simp only [insertName, h, if_false, Bool.false_eq_true]
+      exact ((perm_insertName x ys).cons y).trans (List.Perm.swap x y ys)
+
+theorem perm_sortNames : ∀ (l : List Name), (sortNames l).Perm l
+  | [] => List.Perm.refl _
+  | x :: xs => (perm_insertName x (sortNames xs)).trans ((perm_sortNames xs).cons x)
+
+theorem sorted_insertName (x : Name) : ∀ (l : List Name), SortedNames l → SortedNames (insertName x l)
+  | [], _ => trivial
+  | [y], _ => by
+    by_cases h : nameLe x y = true
+    · simp [insertName, h, SortedNames]
+    · have := (nameLe_total x y).resolve_left h
+      simp [insertName, h, SortedNames, this]
+  | y :: z :: r, hs => by
+    by_cases h : nameLe x y = true
+    · simp only [insertName, h, if_true]
+      exact ⟨h, hs⟩
+    · have hyx := (nameLe_total x y).resolve_left h
+      have ih := sorted_insertName x (z :: r) hs.2
+      simp only [insertName, h, if_false, Bool.false_eq_true]
+      by_cases h2 : nameLe x z = true
+      · simp only [insertName, h2, if_true] at ih ⊢
+        exact ⟨hyx, ih⟩
+      · simp only [insertName, h2, if_false, Bool.false_eq_true] at ih ⊢
+        exact ⟨hs.1, ih⟩
+
+theorem sorted_sortNames : ∀ (l : List Name), SortedNames (sortNames l)
+  | [] => trivial
+  | x :: xs => sorted_insertName x _ (sorted_sortNames xs)
+
 /-! ### the emitted prelude -/
 
 def Stmt.isDecl : Stmt → Bool
